@@ -2011,5 +2011,25 @@ func enumConnect(tier string) []interface{} {
 	for t := byte(2); t <= 14; t++ {
 		mk(refmqtt.Encode(samplePacket(t, int(t))), "")
 	}
+	// a CONNECT with will, user name and password and every remaining length
+	// smaller than the real one (the packet ends inside or right behind any of
+	// its fields), the cut-off bytes following at once; and the same CONNECT
+	// with 1-3 surplus bytes inside the remaining length
+	full := refmqtt.Encode(&refmqtt.Packet{Type: refmqtt.CONNECT, ClientID: "enum", CleanSession: true, KeepAlive: 60, WillFlag: true, WillQoS: 1, WillTopic: "c11/will", WillMessage: payload(srcWill+1, 951, 12), HasUser: true, HasPass: true, User: "u1", Pass: []byte("secret-u1")})
+	if full[1] < 0x7c {
+		for rl := 0; rl < int(full[1]); rl++ {
+			c := append([]byte{}, full...)
+			c[1] = byte(rl)
+			mk(c, "")
+		}
+		for extra := 1; extra <= 3; extra++ {
+			c := append([]byte{}, full...)
+			c[1] += byte(extra)
+			for i := 0; i < extra; i++ {
+				c = append(c, byte(0x30+i))
+			}
+			mk(c, "")
+		}
+	}
 	return out
 }
